@@ -30,6 +30,9 @@ def run(chk):
         "checking the logged fastrand() range and result of every overflowing push; the quality of the Xoshiro256** RNG is trusted",
         "the chi-square statistic over 100000 trials is reported in the evidence but never decides the verdict",
         "sequentially consistent interleavings",
+        "consume() calls are serialised (the spec has one consumer at a time): two real consumer threads whose calls overlap in time "
+        "must produce a log in which the second call's steps begin after the first one's reset; the second consumer is given 100 ms "
+        "to get in before the pusher continues (waiting longer only makes a non-serialising implementation easier to see)",
     ]
     # 1a. exact retention distribution over all draw sequences
     r = vlib.tlc_mc(SPEC, "ResDist", "ResDist.cfg", workers=4, timeout=600, coverage=False, tag="dist")
@@ -83,6 +86,15 @@ def run(chk):
             chk.tool_error("c16 record failed", out)
         total += vlib.validate_concat(chk, SPEC, "TraceReservoir", tcfg, tr2, "scheduled pushers+consumer cap=%d" % cap, KNOWN)
         chk.cov["distinct_nontrivial"] += s2["distinct"]
+    # overlapping consume() calls: a second consumer calls while the first one's closure is still running
+    for cap in (2, 4, 8):
+        tro = chk.path("overlap_cap%d.ndjson" % cap)
+        rc, out, s5 = vlib.harness("c16", ["overlap", "--cap", cap, "--runs", 40 if thorough else 8, "--out", tro], env=env, timeout=900)
+        if rc != 0 or not s5:
+            chk.tool_error("c16 overlap failed", out)
+        tcfg = cfg("trace_cap%d" % cap, spec="TraceSpec", post=True, Cap=cap, Pushers="{1,2,3}", NVals=99, NConsumes=999)
+        total += vlib.validate_concat(chk, SPEC, "TraceReservoir", tcfg, tro, "overlapping consume() calls cap=%d" % cap, KNOWN)
+        chk.cov["distinct_nontrivial"] += s5["distinct"]
     # spec -> impl: TLC schedules (no overflow, so no draw is needed to follow them) + the CF16c witness
     progs = chk.path("programs.ndjson")
     r = vlib.tlc_mc(SPEC, "SimReservoir", cfg("sim", spec="SimSpec", inv="Emit", Cap=2, Pushers="{1,2}", NVals=1, NConsumes=2),
